@@ -162,8 +162,8 @@ def check_flow(cs):
     prios = PRIOSETS[cs["prioset"]]
     safes = [bool((cs["safe_sel"] >> i) & 1) for i in range(3)]
     conts = [CONTENTS[c] for c in cs["contents"]]
-    # on the plain PC generator 2 has no reload command at all
-    reloads = [None, None, "" if plain else None]
+    # on the plain PC generators 0 and 1 share ONE reload command (two files of one service) and generator 2 has none at all
+    reloads = ["systemctl reload svc", "systemctl reload svc", ""] if plain else [None, None, None]
     gens = [_mk_gen(i, paths[i], prios[i], conts[i], safes[i], reloads[i]) for i in range(3)]
     order = PERMS[cs["perm"]]
     saved = annet.deploy.get_deployer
